@@ -264,7 +264,7 @@ Fixpoint cut (mark s : str) : option (str * str) :=
                    end
        end.
 
-(* for i, c in enumerate(data): if in_paste: self.feed(data[i:]); break
+(* for i, c in enumerate(data): if in_paste: data = data[i:]; break  (-> next loop iteration [k])
                                 else: send(c) *)
 Fixpoint feed_chars (k : str -> pstate -> pstate) (d : str) (st : pstate) : pstate :=
   match d with
@@ -272,7 +272,8 @@ Fixpoint feed_chars (k : str -> pstate -> pstate) (d : str) (st : pstate) : psta
   | c :: r => if in_paste st then k d st else feed_chars k r (send_char c st)
   end.
 
-(* fuel counts the recursive self.feed(...) calls *)
+(* fuel counts the iterations of feed()'s "while True" loop (before 6a14a13: the
+   recursive self.feed(...) calls, see Proofs/C03_Depth.v) *)
 Fixpoint feed_fuel (fuel : nat) (data : str) (st : pstate) : pstate :=
   match fuel with
   | O => set_oof st
